@@ -251,6 +251,32 @@ def c18_fanout_size_limit(r):
         shutil.rmtree(d, ignore_errors=True)
 
 
+def c12_lookup_overlapping_replace(r):
+    import diskcache
+    d = tempfile.mkdtemp()
+    try:
+        idx = diskcache.Index(d)
+        other = diskcache.Index(d)
+        idx['k'] = b'a' * 100000
+        disk = idx.cache.disk
+        real_fetch = disk.fetch
+        state = {'done': False}
+
+        def fetch(mode, filename, value, read):
+            if not state['done']:
+                state['done'] = True
+                other['k'] = b'b' * 100000      # the interfering committed operation of a second client
+            return real_fetch(mode, filename, value, read)
+        disk.fetch = fetch
+        try:
+            v = idx['k']
+            return {'reproduced': False, 'observed': 'found %d bytes' % len(v)}
+        except KeyError:
+            return {'reproduced': True, 'observed': 'KeyError for a key that was present before, during and after the lookup'}
+    finally:
+        shutil.rmtree(d, ignore_errors=True)
+
+
 def main():
     r = json.load(sys.stdin)
     try:
